@@ -267,6 +267,7 @@ def run_case(case):
                     if "bytes" in d0 and ("plain" in d0 or "threadsafe" in d0):
                         res.label("event_while_buffered")
                 sim.clear_actions()
+                sim.gave_up = False
                 for a in during:
                     sim.at(a.get("at", 0.0), lambda a=a: perform(a))
                     res.label("action_during_request")
@@ -284,7 +285,7 @@ def run_case(case):
                     if inject is not None:
                         res.label("line_injection")
                         res.nontrivial = True
-                        with LineInjector(inject["line"], lambda: perform(inject["act"], late=True), suspended=lambda: in_callback[0] > 0):
+                        with LineInjector(inject["line"], lambda: perform(inject["act"], late=True), suspended=lambda: in_callback[0] > 0 or sim.gave_up):
                             out = inp.send(timeout)
                     else:
                         out = inp.send(timeout)
